@@ -16,6 +16,14 @@ Implementation-level oracle = ground truth (model-free)
   (3,4) every command line the real analysis approves is run for real in the analysis directory with a
        canary-writing program on stdin and canary-writing unsafe files around: a canary means unanalysed
        code ran (wrong file, options after the script taken for python's, -c/-m/-i/-x/- overlooked).
+  (5)  ENVIRONMENT of the script (harness/c17_env.py): thousands of small jail directories - how the script is
+       named and reached (.., file / directory symlinks, symlinked cwd, loops, ~) x what lies next to the REAL
+       file, next to the LINK and in the cwd (modules in every importable form, also the ones the interpreter
+       loads transitively or implicitly) x environment assignments, wrappers, directory changes and shell
+       expansions; every approved command is run by the real bash + /venv/bin/python, the jail is snapshotted.
+  (1d) the same layouts, serialised, are given to the model's own file system (Model/PyEnv.v): classify_fs,
+       realpath == Path.resolve, stat == os.stat, analyze_path == analyze_python_file, suffix_ok == Path.suffix,
+       and the specification py_syspath0 == sys.path[0] printed by the real interpreter.
 """
 from __future__ import annotations
 
@@ -31,9 +39,10 @@ import subprocess
 import sys
 import tempfile
 import threading
+import time
 from pathlib import Path
 
-from . import core, lib, pygen
+from . import c17_env, core, lib, pygen
 
 PY = "/venv/bin/python"
 CHILD = os.path.join(os.path.dirname(os.path.abspath(__file__)), "c17_child.py")
@@ -49,6 +58,9 @@ TRUSTED = [
     "C17_visitor hypothesis global_leaf: Global nodes have no node-valued field (checked on every run: ast.Global._fields == ('names',) and no dumped Global node has kids)",
     "modelled, not verified: ast.parse supplies the tree; Path.resolve, the calendar.py/calendar shadow test, the sibling test and analyze_python_file's file checks (exists / is_file / suffix / size / read_bytes) are oracles answered by the real code; reason texts and descriptions are not modelled",
     "specification py_cmdline = CPython 3.12 argv grammar (Python/getopt.c, config_parse_cmdline), validated against /venv/bin/python on generated argv (coverage.cmdline_spec_vs_cpython); -W/-X values are not validated by the spec",
+    "environment stream: ground truth is bash 5 + /venv/bin/python run in a private jail per case (HOME, PATH and LANG set, nothing else); an effect is a change of the jail's tree (path set, file type, size) - writes outside the jail (e.g. /tmp/perf-PID.map of -X perf) are not seen; the modules an inert script loads are discovered with -X importtime on this interpreter only",
+    "file-system model (Model/PyEnv.v): association list over symlink-free absolute paths as serialised by harness/c17_env.py fs_of_jail (lstat walk of the jail + its ancestor directories, ast.parse of every regular file); permissions, unreadable files, hard-link identity, `//` as a distinct root and chains of more than 3000 path steps are not modelled; a symlink loop is 'resolve raises' as soon as it is met (Python returns the loop link + the unread rest, normalised, and raises only if that still loops): tokens continuing after a looping component are left to the model-free oracles (counted in coverage.environment.model_correspondence)",
+    "specification py_syspath0 = CPython 3.12 pymain_run_python / _PyPathConfig_ComputeSysPath0 (directory of the real path of the script; the script itself when it is a directory; the cwd for -m), validated against sys.path[0] printed by /venv/bin/python on every access path of the stream",
     "runtime inertness is NOT proved (no Gallina model of CPython): it is decided by execution under an audit hook for the generated scripts only; events raised while a library module initialises itself during import are not attributed to the script (counted in coverage.inertness.import_time_events)",
 ]
 
@@ -564,6 +576,11 @@ def run(tier, seed, replay=None):
 
     rng = random.Random(seed)
     out = core.Outcome("C17")
+    t_start = time.time()
+    timing = {}
+
+    def lap(name):
+        timing[name] = round(time.time() - t_start - sum(timing.values()), 1)
     scratch = Scratch()
     old_cwd = os.getcwd()
     model = ModelProxy()
@@ -626,6 +643,10 @@ def run(tier, seed, replay=None):
                     # analyze_python_source is the same visitor behind ast.parse
                     if ap and [(v.kind, v.detail) for v in H.analyze_python_source(src_bytes)] != il:
                         out.disagreements.append({"correspondence": "analyze_python_source <-> SafetyAnalyzer.visit", "script": s.text})
+                    # ... and hands its allow_print argument on (no caller in /repo passes False; the API does)
+                    if not ap and [(v.kind, v.detail) for v in H.analyze_python_source(src_bytes, False)] != il:
+                        out.disagreements.append({"correspondence": "analyze_python_source(allow_print=False) <-> SafetyAnalyzer(allow_print=False).visit",
+                                                  "script": s.text})
                 # analyze_python_source with base: the sibling check over imported_roots
                 if s.siblings or idx % 11 == 0:
                     names = {n.split("/")[0] for n, _ in s.siblings}
@@ -748,6 +769,7 @@ def run(tier, seed, replay=None):
                              "hook that records and vetoes open/os.*/subprocess.*/socket.*/ctypes.*/exec/compile/unsafe import")
         out.extra["inertness"] = inert_cov
 
+        lap("scripts_and_inertness")
         # =================================================================== malformed trees (1a)
         if not replay:
             n_mal = 800 if tier == "quick" else 8000
@@ -769,11 +791,12 @@ def run(tier, seed, replay=None):
                     out.disagreements.append({"correspondence": "PyArgs.visit <-> SafetyAnalyzer.visit (hand-built tree)",
                                               "tree": d, "allow_print": ap, "model": ml, "impl": il, "raised": raised})
 
+        lap("malformed_trees")
         # =================================================================== command lines
         def res(p):
             try:
                 return [str(Path(p).resolve())]
-            except (ValueError, OSError):
+            except (ValueError, OSError, RuntimeError):   # NUL byte; symlink loop (RuntimeError from Path.resolve)
                 return []
         oracles = {"py_resolve": res, "py_analyze": lambda p: H.analyze_python_file(Path(p))[0],
                    "py_shadow": lambda c: (Path(c) / "calendar.py").exists() or (Path(c) / "calendar").is_dir()}
@@ -962,6 +985,12 @@ def run(tier, seed, replay=None):
                                                "tokens": toks, "head": list(head), "analysis_cwd": work,
                                                "signature_text": "placement: " + " ".join(["python"] + toks[1:])})
         out.extra["placement_pairs_checked"] = suffix_checked
+
+        lap("command_lines")
+        # =================================================================== environment of the script
+        if not replay or replay.get("env_case") is not None:
+            out.extra["environment"] = c17_env.run_env(out, H, AN, cfg, scratch.root, tier, rng, replay if replay else None,
+                                                       model if model.available else None, dump, decoy, xcheck)
     finally:
         os.chdir(old_cwd)
         model.close()
@@ -970,7 +999,10 @@ def run(tier, seed, replay=None):
     if os.environ.get("C17_DUMP"):
         with open(os.environ["C17_DUMP"], "w") as f:
             json.dump({"violations": out.violations, "disagreements": out.disagreements}, f, indent=1, default=str)
+    lap("environment")
     n, mism = core.coq_crosscheck("C17", xcheck)
+    lap("coq_crosscheck")
+    out.extra["timing_s"] = timing
     out.extra["coq_vm_crosscheck"] = {"cases": n, "mismatches": len(mism)}
     if mism:
         out.disagreements.append({"correspondence": "extracted OCaml model <-> vm_compute in Coq", "detail": mism[:5]})
@@ -983,6 +1015,12 @@ def run(tier, seed, replay=None):
         "5-6 argument shapes; random = fillers + a fragment under nested contexts; hand-built grammar-violating trees for the visitor. "
         "command lines: all sequences of <=2 (quick) / <=3 (thorough) tokens over a 21-token core alphabet, named witnesses, "
         "option-placement suffixes, random sequences to length 6 over 80 tokens; analysis cwd != process cwd (a decoy directory with "
-        "safe/unsafe roles swapped). distinct = distinct (script | tree | token list); a violation needs an approval by the real code "
-        "AND an observed audit event / canary file.")
+        "safe/unsafe roles swapped). environment: 40 access paths (spelling x link structure) x 3 places x 7 (quick) / 14 (thorough) "
+        "neighbour kinds for a fixed module + every safe module through a rotating (access, place, kind); every safe module x import "
+        "form x shadow kind, and each of its transitively loaded modules (discovered) x kind; import-free scripts that import implicitly; "
+        "-m calendar x cwd contents; every PYTHON* variable of --help-env x 10 ways of passing it, every -X option x 4 spellings, 23 wrappers, "
+        "25 directory changes x 2-4 groupings, 14 command-name spellings, 18 stdin / second-command shapes; 33 script words bash rewrites; all "
+        "component sequences of length <=3 (quick) / <=4 over an 11-component path alphabet, relative and absolute, in one layout holding every "
+        "link structure (same real file => same verdict). distinct = distinct (script | tree | token list | jail layout + command); a "
+        "violation needs an approval by the real code AND an observed audit event / canary file / change of the jail.")
     return out
